@@ -16,6 +16,15 @@ struct SymKill : BaseKillPlugin {
     return OomdContext::sortDescWithKillPrefs(cgroups, [](const CgroupContext& c) { return c.current_usage().value_or(0); });
   }
   void ologKillTarget(OomdContext&, const CgroupContext&, const std::vector<OomdContext::ConstCgroupContextRef>&) override {}
+#if H_MODE != 3
+  // walk variants: the three accounting calls are observed at their call boundary (which cgroup, which uuid, how many
+  // signals); their read-modify-write of the xattr values is the subject of the accounting variants (H_MODE 3), which run
+  // the real functions. (Running them inside the walk put long symbolic-length string loops into every attempt.)
+  void reportKillInitiationToXattr(const std::string& p) override { vf_event(EV_NOTE, N_XINIT, vfw::find_abs(p), 0, 0); }
+  void reportKillCompletionToXattr(const std::string& p, int n) override { vf_event(EV_NOTE, N_XDONE, vfw::find_abs(p), n, 0); }
+  void reportKillUuidToXattr(const std::string& p, const std::string& uuid) override { vf_event(EV_NOTE, N_XUUID, vfw::find_abs(p), vf_uuid_serial_of(uuid.c_str()), 0); }
+  int dumpMemoryStat(const CgroupContext&) override { return 0; }   // logging only
+#endif
   SystemMaybe<int> tryToKillCgroup(const CgroupContext& target, const KillUuid& uuid, bool dry, KillCgroupStats& stats) override {
     vf_event(EV_NOTE, N_ATTEMPT, vfw::find_abs(target.cgroup().absolutePath()), vf_uuid_serial_of(uuid.c_str()), dry);
     return BaseKillPlugin::tryToKillCgroup(target, uuid, dry, stats);
@@ -80,7 +89,19 @@ extern "C" void harness(void) {
     }
   }
   vfw::meminfo_memtotal = 1LL << 30; vfw::meminfo_swaptotal = 0;
-#if H_MODE == 0
+#if H_MODE == 3
+  // accounting unit: the real reportKillUuidToXattr / reportKillInitiationToXattr / reportKillCompletionToXattr on node 1
+  // with symbolic pre-existing values (absent / 0..50, independently for trusted. and user.) and a symbolic kill count
+  {
+    SymKill& p = *new SymKill;
+    int nk = (int)vf_nd(K_FLAG + 7, 0, 30); vf_cfg_set(CFG_FLAGS, 6, nk);
+    std::string path = "/c/a";
+    vf_event(EV_OP, 3, 0, 0, 0);
+    p.reportKillUuidToXattr(path, "u7");
+    p.reportKillInitiationToXattr(path);
+    p.reportKillCompletionToXattr(path, nk);
+  }
+#elif H_MODE == 0
   int dry = (int)vf_nd(K_FLAG + 6, 0, 1); vf_cfg_set(CFG_FLAGS, 1, dry);
   runOnce(dry);
 #else
